@@ -313,7 +313,11 @@ static void check_mode(vmc::Ctx& ctx, const World& w, const Stream& s, const Mod
 {
   const Store& st = STORES[store];
   const int nseg = w.g.nseg(), ntof = w.g.ntof();
-  const std::string keytail = std::string(";mode=") + m.kind() + ";store=" + STORE_NAME[store] + ";tof=" + (w.tof ? "1" : "0");
+  bool gap = false;
+  for (const Rec& r : s) if (r.kind == 'T' && r.dt > 1) gap = true;
+  // a stream whose time marks skip more than a second is its own class (coarse key: one defect there should not print one line per store/TOF combination)
+  const std::string keytail = gap ? std::string(";mode=") + m.kind() + ";time_marks=with_gap"
+                                  : std::string(";mode=") + m.kind() + ";store=" + STORE_NAME[store] + ";tof=" + (w.tof ? "1" : "0") + ";time_marks=regular";
   if (!st.prompts && !st.delayeds)
     {
       std::string what;
@@ -469,6 +473,11 @@ typedef DiscretisedDensity<3, float> Target;
 typedef PoissonLogLikelihoodWithLinearModelForMeanAndListModeDataWithProjMatrixByBin<Target> LMObj;
 typedef PoissonLogLikelihoodWithLinearModelForMeanAndProjData<Target> PDObj;
 static const double EPSF = std::numeric_limits<float>::epsilon();
+#ifdef VERIF_FLAVOUR_OMP
+static const char* BUILD = "openmp";
+#else
+static const char* BUILD = "no_openmp";
+#endif
 
 static shared_ptr<ProjMatrixByBinUsingRayTracing> make_matrix(int sym)
 {
@@ -624,8 +633,7 @@ static void check_gradient(vmc::Ctx& ctx, GWorld& G, const Stream& s, const GCfg
 {
   const World& w = *G.w;
   const std::string kase = "part=G;" + w.t.str() + ";s=" + lmref::stream_str(s) + ";" + c.str();
-  const std::string keytail = std::string(";tof=") + (w.tof ? "1" : "0") + ";add=" + vmc::str(c.add) + ";cache=" + (c.cache == 0 ? "off" : "on") + ";sym=" + vmc::str(c.sym)
-                              + ";subsets=" + (c.N > 1 ? "n" : "1") + ";frame=" + (c.fa < 0 ? "none" : "yes");
+  const std::string keytail = std::string(";tof=") + (w.tof ? "1" : "0") + ";add=" + vmc::str(c.add) + ";cache=" + (c.cache == 0 ? "off" : "on");
   ctx.current("part=G", kase);
   ctx.count("G_cases");
   ctx.count("states");
@@ -692,7 +700,12 @@ static void check_gradient(vmc::Ctx& ctx, GWorld& G, const Stream& s, const GCfg
       }
     if (worst > 1.0)
       {
-        ctx.violation(std::string("part=G;clause=") + clause + keytail, kase + ";S=" + vmc::str(S),
+        bool all_zero = true;
+        for (double x : impl) if (x != 0) all_zero = false;
+        // an identically zero result is one class of failure whatever the configuration
+        const std::string key = all_zero ? std::string("part=G;clause=") + clause + ";kind=all_zero;build=" + BUILD
+                                         : std::string("part=G;clause=") + clause + ";kind=differs;build=" + BUILD + keytail;
+        ctx.violation(key, kase + ";S=" + vmc::str(S),
                       std::string(clause) + " subset " + vmc::str(S) + "/" + vmc::str(c.N) + " voxel " + vmc::str(at) + ": list-mode objective " + vmc::str(impl[at]) + ", reference "
                           + vmc::str(ref[at]) + " (tolerance " + vmc::str((64 * EPSF + 2e-6) * Tsum[at]) + "; events in frame " + vmc::str(accepted) + ")");
         return false;
@@ -716,11 +729,11 @@ static void check_gradient(vmc::Ctx& ctx, GWorld& G, const Stream& s, const GCfg
       std::vector<double> gs, g;
       ctx.count("traces_validated_against_impl");
       if (small::throws([&] { obj->compute_sub_gradient_without_penalty_plus_sensitivity(*out, *est, S); gs = from_image(*out); }, &what))
-        { ctx.violation("part=G;clause=exception" + keytail, kase + ";S=" + vmc::str(S), "compute_sub_gradient_without_penalty_plus_sensitivity threw: " + what.substr(0, 300)); return; }
+        { ctx.violation(std::string("part=G;clause=exception;build=") + BUILD + keytail, kase + ";S=" + vmc::str(S), "compute_sub_gradient_without_penalty_plus_sensitivity threw: " + what.substr(0, 300)); return; }
       ok &= compare("data_term", S, gs, data, data);
       if (!ok) break;
       if (small::throws([&] { obj->compute_sub_gradient_without_penalty(*out, *est, S); g = from_image(*out); }, &what))
-        { ctx.violation("part=G;clause=exception" + keytail, kase + ";S=" + vmc::str(S), "compute_sub_gradient_without_penalty threw: " + what.substr(0, 300)); return; }
+        { ctx.violation(std::string("part=G;clause=exception;build=") + BUILD + keytail, kase + ";S=" + vmc::str(S), "compute_sub_gradient_without_penalty threw: " + what.substr(0, 300)); return; }
       std::vector<double> ref(G.nvox), Ts(G.nvox);
       for (size_t j = 0; j < G.nvox; ++j) { ref[j] = data[j] - sens[j]; Ts[j] = data[j] + sens[j]; }
       if (!w.tof) ok &= compare("gradient", S, g, ref, Ts); // TOF: the sensitivity is computed without TOF, an approximation of the TOF sum; only the data term is compared
@@ -743,11 +756,8 @@ static void check_gradient(vmc::Ctx& ctx, GWorld& G, const Stream& s, const GCfg
       shared_ptr<ProjDataInMemory> hist;
       std::vector<std::vector<float>> fr;
       // histogram with the list-mode data's own geometry as template
-      {
-        World w2 = w; w2.lm_pdi = w.tmpl;
-        if (small::throws([&] { fr = run_real(w2, s, m, STORES[1], w.g.nseg(), w.g.ntof(), nullptr, false, &hist); }, &what))
-          { ctx.violation("part=G;clause=exception" + keytail, kase, "LmToProjData threw: " + what.substr(0, 300)); return; }
-      }
+      if (small::throws([&] { fr = run_real(w, s, m, STORES[1], w.g.nseg(), w.g.ntof(), nullptr, false, &hist); }, &what))
+        { ctx.violation(std::string("part=G;clause=exception;build=") + BUILD + keytail, kase, "LmToProjData threw: " + what.substr(0, 300)); return; }
       shared_ptr<PDObj> pobj(new PDObj);
       failed = false;
       if (small::throws(
@@ -868,6 +878,8 @@ int main(int argc, char** argv)
   if (ctx.replaying()) { replay_case(ctx); return ctx.finish(); }
 
   const bool th = ctx.thorough();
+  std::string only; // testing aid: "--only H" / "--only G"
+  for (size_t i = 0; i + 1 < ctx.extra_args.size(); ++i) if (ctx.extra_args[i] == "--only") only = ctx.extra_args[i + 1];
   // ---- templates
   const Tmpl tNT = T_(8, 2, 0, 1, 1);                 // 3 segments, non-TOF
   const Tmpl tTOF = T_(8, 2, 3, 1, 1);                // 3 segments x 3 TOF bins
@@ -893,23 +905,26 @@ int main(int argc, char** argv)
   else
     {
       htasks.push_back({ tTOF, 0, 6 });
-      htasks.push_back({ tNT, 0, 7 });
-      htasks.push_back({ tSEGRED, 0, 6 });
+      htasks.push_back({ tSEG0, 0, 7 });
+      htasks.push_back({ tNT, 0, 6 });
+      htasks.push_back({ tSEGRED, 0, 5 });
       htasks.push_back({ tTM, 0, 5 });
       htasks.push_back({ tAX, 0, 5 });
       htasks.push_back({ tMIX, 1, 3 });
       htasks.push_back({ tTOF, 1, 3 });
       htasks.push_back({ tSPAN5, 1, 3 });
     }
+  if (only == "G") htasks.clear();
   std::vector<GTask> gtasks;
-  gtasks.push_back({ tNT, th ? 4 : 3 });
-  gtasks.push_back({ tTOF, th ? 4 : 3 });
-  gtasks.push_back({ tSPAN, th ? 3 : 2 });
-  gtasks.push_back({ tVM, th ? 3 : 2 });
-  if (th) gtasks.push_back({ tTM, 3 });
+  gtasks.push_back({ tNT, th ? 3 : 2 });
+  gtasks.push_back({ tTOF, th ? 3 : 2 });
+  gtasks.push_back({ tSPAN, th ? 2 : 1 });
+  gtasks.push_back({ tVM, th ? 2 : 1 });
+  if (th) gtasks.push_back({ tTM, 2 });
+  if (only == "H") gtasks.clear();
 
   uint64_t unit = 0;
-  const int PL = 2; // work unit = (task, first PL symbols)
+  // work unit = (task, first PL symbols of the stream)
   // ---- part H: all streams
   for (const HTask& task : htasks)
     {
@@ -928,17 +943,18 @@ int main(int argc, char** argv)
                      40);
         }
       const int na = (int)a.size();
-      // prefixes of length 0..PL
+      // prefixes of length 0..PL (PL = 3 for the deep tasks: finer work units)
+      const int PL = std::min(task.depth, task.depth >= 6 ? 3 : 2);
       std::vector<std::vector<int>> prefixes;
       prefixes.push_back({});
-      for (int i = 0; i < na && task.depth >= 1; ++i)
+      for (size_t at = 0; at < prefixes.size(); ++at)
         {
-          if (PL >= 2 && task.depth >= 2) { prefixes.push_back({ i }); for (int j = 0; j < na; ++j) prefixes.push_back({ i, j }); }
-          else prefixes.push_back({ i });
+          if ((int)prefixes[at].size() >= PL) continue;
+          for (int i = 0; i < na; ++i) { std::vector<int> q = prefixes[at]; q.push_back(i); prefixes.push_back(q); }
         }
       for (auto& p : prefixes)
         {
-          const bool leaf = (int)p.size() == std::min(PL, task.depth);
+          const bool leaf = (int)p.size() == PL;
           if (!ctx.mine(unit++)) continue;
           if (ctx.expired()) return ctx.finish();
           if (!leaf)
@@ -955,6 +971,7 @@ int main(int argc, char** argv)
   for (const Tmpl& t : all)
     for (int variant = 0; variant < 2; ++variant)
       {
+        if (only == "G") continue;
         if (!ctx.mine(unit++)) continue;
         if (ctx.expired()) return ctx.finish();
         auto w = world(t);
